@@ -12,11 +12,11 @@ SYS = (None, None, ())
 
 def _outputs_of_call(nid, spec, key, roots, n_emit):
     """What one process() call sends: None (nothing) or (topics dict, new n_emit)."""
-    if _hit(spec.get('empty'), key):
-        return {}, n_emit
     form = spec.get('form', 'dict')
     if form == 'callable' and _hit(spec.get('defer_none'), key):
         return None, n_emit
+    if _hit(spec.get('empty'), key):
+        return {}, n_emit
     out = {}
     for o in spec.get('out') or [{'name': 'main'}]:
         if o.get('only') is not None and not _hit(o['only'], key):
